@@ -155,8 +155,11 @@ def _cross_check(formulas, v: Verdict, timeout_ms: int) -> Verdict:
         return v
     t1 = time.time()
     STATS["cvc5_calls"] += 1
-    ans = run_cli([CVC5, "--strings-exp", f"--tlimit={timeout_ms}"], smt2,
-                  timeout_ms // 1000)
+    # the cross-check is bounded separately: cvc5 either agrees quickly or
+    # stays silent (only an explicit `sat` is a disagreement)
+    xt = min(timeout_ms, 8000)
+    ans = run_cli([CVC5, "--strings-exp", f"--tlimit={xt}"], smt2,
+                  max(1, xt // 1000))
     STATS["cvc5_ms"] += (time.time() - t1) * 1000
     if ans == "unsat":
         v.solver = "z3+cvc5"
